@@ -703,6 +703,9 @@ RNG_FLOAT = {"random_sample", "rand", "randn", "normal", "uniform", "gamma", "st
 RNG_NAMES = {"rng", "rns", "random_state", "random"}
 OPAQUE_CALLS = {"check_random_state", "RandomState", "default_rng", "warn", "print", "DeprecationWarning", "ValueError", "TypeError", "get_backend", "format", "join", "str", "repr",
                 "type", "validate_cp_rank", "validate_tucker_rank", "validate_tt_rank", "validate_tr_rank", "svd_checks", "validate_constraints", "id", "set", "dict", "getattr"}
+SELECT_CALLS = {"reshape", "transpose", "moveaxis", "take", "sum", "max", "min", "cumsum", "sort", "flip", "roll", "swapaxes", "tile", "repeat", "squeeze", "expand_dims",
+                "unfold", "fold", "partial_unfold", "partial_fold", "matricize", "tensor_to_vec", "vec_to_tensor", "partial_tensor_to_vec", "partial_vec_to_tensor", "ravel",
+                "flatten", "diag", "trace", "delete", "compress", "permute", "copy", "conj", "sign"}
 MODULES = {"tl", "T", "np", "tenalg", "math", "warnings", "scipy", "tensorly", "backend"}
 
 
@@ -1031,7 +1034,7 @@ class Translator:
         if A in ("eps", "finfo"):
             a = args[0] if args else None
             if a is not None and a[0] == "dtypeof":
-                return ("into", a[1], PYF)
+                return ("real", ("into", a[1], PYF))      # np.finfo(dtype).eps: a NumPy scalar of the REAL type of that precision
             if a is not None and a[0] == "dtconst":
                 return ("leaf", f"(LConst {a[1]})")
             return PYF
@@ -1069,10 +1072,13 @@ class Translator:
             return join(PYI, joinlist(args))
         # default: promotion of everything that goes in (modular summary of the callee / NumPy promotion); index / shape / boolean-mask
         # arguments select entries, they do not take part in the arithmetic
-        ins = [x for x in [base_expr] + args + list(kws.values()) if x is not None and not idxlike(x, self.intvars, self.weakvars)]
-        if not ins:
-            return joinlist([base_expr] + args + list(kws.values()))
-        return joinlist(ins)
+        allv = [x for x in [base_expr] + args + list(kws.values()) if x is not None]
+        if A in SELECT_CALLS:
+            # shape / axis / index arguments of selection and re-arrangement functions do not take part in the arithmetic
+            arrs = [x for x in allv if not idxlike(x, self.intvars, self.weakvars) and not weaklike(x, self.weakvars)]
+            if arrs:
+                return joinlist(arrs + [x for x in allv if weaklike(x, self.weakvars)])
+        return joinlist(allv)      # everything that goes in is promoted (NumPy arithmetic / modular summary of a library function)
 
     # ---- statements
     def assign(self, tgt, e):
